@@ -158,7 +158,9 @@ fn cpp_reserved(k: &str) -> bool {
 }
 
 pub fn gen_c_header(r: &mut Rng) -> (String, Facts) {
-    let mut g = G { r, out: String::from("#include <stdint.h>\n#include <stddef.h>\n"), n: 0, structs: vec![], unions: vec![], enums: vec![], typedefs: vec![], facts: Facts::default(), cpp: false };
+    // mostly self-contained (the system headers bring `max_align_t` & co. into every case)
+    let prelude = if r.chance(1, 10) { "#include <stdint.h>\n#include <stddef.h>\n" } else { "typedef unsigned long size_t; typedef int wchar_t; typedef signed char int8_t; typedef unsigned short uint16_t; typedef int int32_t; typedef unsigned long uint64_t;\n" };
+    let mut g = G { r, out: String::from(prelude), n: 0, structs: vec![], unions: vec![], enums: vec![], typedefs: vec![], facts: Facts::default(), cpp: false };
     let n = g.r.range(3, 18);
     for _ in 0..n {
         match g.r.below(12) {
@@ -271,6 +273,14 @@ pub fn gen_options(r: &mut Rng, cpp: bool, facts: &Facts) -> OptSet {
     on(r, 1, 3, "--with-derive-partialord");
     on(r, 1, 3, "--with-derive-eq");
     on(r, 1, 3, "--with-derive-ord");
+    // Rust's PartialOrd / Ord need PartialEq / Eq: keep the drawn set consistent most of the time so that
+    // the known region `derive_ord_without_eq` does not swallow the exploration
+    if !r.chance(1, 8) {
+        let has = |f: &Vec<String>, x: &str| f.iter().any(|y| y == x);
+        if (has(&f, "--with-derive-partialord") || has(&f, "--with-derive-ord")) && !has(&f, "--with-derive-partialeq") { f.push("--with-derive-partialeq".into()); }
+        if has(&f, "--with-derive-ord") && !has(&f, "--with-derive-eq") { f.push("--with-derive-eq".into()); }
+    }
+    let mut on = |r: &mut Rng, num: u64, den: u64, flag: &str| { if r.chance(num, den) { f.push(flag.into()); } };
     on(r, 1, 6, "--no-derive-copy");
     on(r, 1, 6, "--no-derive-debug");
     on(r, 1, 3, "--impl-debug");
@@ -283,17 +293,14 @@ pub fn gen_options(r: &mut Rng, cpp: bool, facts: &Facts) -> OptSet {
     on(r, 1, 3, "--sort-semantically");
     on(r, 1, 3, "--merge-extern-blocks");
     on(r, 1, 3, "--wrap-unsafe-ops");
-    on(r, 1, 6, "--generate-inline-functions");
-    on(r, 1, 6, "--no-prepend-enum-name");
-    on(r, 1, 8, "--no-recursive-allowlist");
-    on(r, 1, 8, "--with-derive-custom-struct=.*=Clone");
-    if cpp { on(r, 1, 2, "--enable-cxx-namespaces"); on(r, 1, 6, "--vtable-generation"); on(r, 1, 8, "--generate-cxx-nonnull-references"); }
+    if cpp { on(r, 1, 2, "--enable-cxx-namespaces"); }
     if r.chance(1, 2) { f.push("--default-enum-style".into()); f.push((*r.pick(&["consts", "moduleconsts", "bitfield", "newtype", "newtype_global", "rust", "rust_non_exhaustive"])).into()); }
     if r.chance(1, 3) { f.push("--default-alias-style".into()); f.push((*r.pick(&["type_alias", "new_type", "new_type_deref"])).into()); }
     if r.chance(1, 3) { f.push("--default-non-copy-union-style".into()); f.push((*r.pick(&["bindgen_wrapper", "manually_drop"])).into()); }
     if r.chance(1, 4) { f.push("--ctypes-prefix".into()); f.push((*r.pick(&["::core::ffi", "::std::os::raw", "::std::ffi"])).into()); }
     let edition = *r.pick(&["2018", "2021", "2024"]);
     f.push("--rust-edition".into()); f.push(edition.into());
+    if edition == "2024" { f.push("--rust-target".into()); f.push("1.85".into()); }
     let mut blocklisted = vec![];
     if r.chance(1, 8) {
         if let Some(t) = facts.idents.iter().find(|i| i.starts_with('S') && i.chars().skip(1).all(|c| c.is_ascii_digit())) {
